@@ -46,6 +46,21 @@ def load_unit(pid):
         raise Undecided(f"no unit file {path}")
     u = json.load(open(path))
     shared = json.load(open(f"{VERIF}/units/_shared.json"))
+    # harness modules name helpers of other harness modules: close the module list under `requires`
+    mods = list(u.get("modules", []))
+    i = 0
+    while i < len(mods):
+        for r in shared.get("requires", {}).get(mods[i], []):
+            if r not in mods:
+                mods.append(r)
+        i += 1
+    u["modules"] = mods
+    um = list(u.get("use_models", []))
+    for m in mods:
+        for f in shared.get("models_for", {}).get(m, []):
+            if f not in um:
+                um.append(f)
+    u["use_models"] = um
     cs = list(u.get("contracts", []))
     for m in u.get("modules", []):
         cs += shared.get("contracts", {}).get(m, [])
